@@ -102,19 +102,22 @@ type ReqCtx struct {
 	// RootTok is the expected root token, Vars the variables as supplied.
 	RootTok Tok
 
-	mu       sync.Mutex
-	Log      []string          // R+path R-path T+path T-path RT:path IT:path
-	Fired    map[string]int    // fault kind -> times it actually fired
-	Seen     map[string]int    // resolver invocations per response path
-	Bad      []string          // parameter-accuracy violations found locally (C20)
-	FiredAt  []string          // "<kind>@<path>" of every fault that fired, in order
-	Types    map[string]string // declared return type of every resolved field position
-	TypeAt   map[string]string // runtime object type of every object position that had a field resolved
-	ArgLog   map[string]string
-	Check    func(rc *ReqCtx, p *graphql.ResolveParams, path string) // optional extra check (C20)
-	Ext      *ExtRun                                                 // when set, resolver events are mirrored into the extension log
-	Cancel   func()                                                  // cancels the request context (used by the cancel_ctx fault)
-	PathArrs map[string][]interface{}                                // the path arrays handed out at call time (C20: they must not change afterwards)
+	mu      sync.Mutex
+	Log     []string          // R+path R-path T+path T-path RT:path IT:path
+	Fired   map[string]int    // fault kind -> times it actually fired
+	Seen    map[string]int    // resolver invocations per response path
+	Bad     []string          // parameter-accuracy violations found locally (C20)
+	FiredAt []string          // "<kind>@<path>" of every fault that fired, in order
+	Types   map[string]string // declared return type of every resolved field position
+	TypeAt  map[string]string // runtime object type of every object position that had a field resolved
+	ArgLog  map[string]string
+	Check   func(rc *ReqCtx, p *graphql.ResolveParams, path string) // optional extra check (C20)
+	// CheckInfo judges the info handed to type resolvers, isTypeOf functions
+	// and FieldResolver sources (C20)
+	CheckInfo func(rc *ReqCtx, who, path string, info graphql.ResolveInfo)
+	Ext       *ExtRun                  // when set, resolver events are mirrored into the extension log
+	Cancel    func()                   // cancels the request context (used by the cancel_ctx fault)
+	PathArrs  map[string][]interface{} // the path arrays handed out at call time (C20: they must not change afterwards)
 }
 
 type reqKey struct{}
@@ -490,6 +493,12 @@ func NewWorld(id string, exts ...graphql.Extension) *World {
 			// resolver-less fields with arguments: only a source implementing
 			// graphql.FieldResolver sees them
 			"echoArg": &graphql.Field{Type: graphql.Int, Args: graphql.FieldConfigArgument{"x": &graphql.ArgumentConfig{Type: graphql.Int, DefaultValue: 1}, "y": &graphql.ArgumentConfig{Type: graphql.Int}}},
+			// resolver-less fields of abstract / isTypeOf-guarded types: the type
+			// callbacks are reached with the info of a default-resolved field
+			"node":  &graphql.Field{Type: w.Node},
+			"objA":  &graphql.Field{Type: w.Obj["A"]},
+			"nodes": &graphql.Field{Type: graphql.NewList(w.Node)},
+			"un":    &graphql.Field{Type: w.U},
 		},
 	})
 	w.Obj["Plain"] = plain
@@ -529,7 +538,15 @@ func NewWorld(id string, exts ...graphql.Extension) *World {
 			"plainB":   &graphql.Field{Type: plain, Resolve: func(p graphql.ResolveParams) (interface{}, error) { return plainRecB(), nil }},
 			"plainPtr": &graphql.Field{Type: plain, Resolve: func(p graphql.ResolveParams) (interface{}, error) { return plainRecPtr(), nil }},
 			"plainMap": &graphql.Field{Type: plain, Resolve: func(p graphql.ResolveParams) (interface{}, error) {
-				return map[string]interface{}{"name": "map-name", "n": 3, "tag": func() interface{} { return "map-tag-fn" }}, nil
+				m := map[string]interface{}{"name": "map-name", "n": 3, "tag": func() interface{} { return "map-tag-fn" }}
+				if rc := ReqOf(p.Context); rc != nil {
+					path := PathString(p.Info.Path)
+					m["node"] = Tok{T: "B", P: path + ".node", R: rc.Req}
+					m["objA"] = Tok{T: "A", P: path + ".objA", R: rc.Req}
+					m["nodes"] = []interface{}{Tok{T: "A", P: path + ".nodes.0", R: rc.Req}, Tok{T: "C", P: path + ".nodes.1", R: rc.Req}}
+					m["un"] = Tok{T: "A", P: path + ".un", R: rc.Req}
+				}
+				return m, nil
 			}},
 			"plainFR":    &graphql.Field{Type: plain, Resolve: func(p graphql.ResolveParams) (interface{}, error) { return plainFieldResolver{}, nil }},
 			"plainFRPtr": &graphql.Field{Type: plain, Resolve: func(p graphql.ResolveParams) (interface{}, error) { return &plainPtrResolver{tag: "ptr"}, nil }},
@@ -1029,6 +1046,9 @@ func isLeafNamed(t graphql.Type) bool {
 // value being completed is the token produced at (or, under a list, below) the
 // field's response path by this execution, and the info is the field's.
 func (rc *ReqCtx) checkCompleted(who string, value interface{}, path string, info graphql.ResolveInfo) {
+	if rc.CheckInfo != nil {
+		rc.CheckInfo(rc, who, path, info)
+	}
 	if rc.Check == nil {
 		return
 	}
@@ -1123,6 +1143,9 @@ func NewWorldPossible() map[string][]string {
 type plainFieldResolver struct{}
 
 func (plainFieldResolver) Resolve(p graphql.ResolveParams) (interface{}, error) {
+	if rc := ReqOf(p.Context); rc != nil && rc.CheckInfo != nil {
+		rc.CheckInfo(rc, "FieldResolver source", PathString(p.Info.Path), p.Info)
+	}
 	switch p.Info.FieldName {
 	case "echoArg":
 		x, _ := p.Args["x"].(int)
@@ -1143,6 +1166,9 @@ func (plainFieldResolver) Resolve(p graphql.ResolveParams) (interface{}, error) 
 type plainPtrResolver struct{ tag string }
 
 func (r *plainPtrResolver) Resolve(p graphql.ResolveParams) (interface{}, error) {
+	if rc := ReqOf(p.Context); rc != nil && rc.CheckInfo != nil {
+		rc.CheckInfo(rc, "FieldResolver source", PathString(p.Info.Path), p.Info)
+	}
 	switch p.Info.FieldName {
 	case "name":
 		return r.tag + "-name", nil
